@@ -882,6 +882,7 @@ impl C18 {
             style: if ldk { KeyDerivationStyle::Ldk } else { KeyDerivationStyle::Native },
             policy: make_default_simple_policy(net),
             now_secs: 1_700_000_000,
+            trusted_oracles: vec![],
         }
     }
 }
